@@ -209,7 +209,7 @@ fn main() {
             extra.insert("big_alloc_sites".to_string(), json!(r.big_alloc_sites));
             extra.insert("workers_restarted".to_string(), json!(r.workers_restarted));
             extra.insert("slow_cases_not_hangs".to_string(), json!(r.slow_cases));
-            extra.insert("engine".to_string(), json!("E3 complete sweep in forked workers (per-case deadline 2 s, allocation guard)"));
+            extra.insert("engine".to_string(), json!("E3 complete sweep in forked workers (per-case deadline 6 s of CPU time, allocation guard)"));
             for (k, v) in &r.big_alloc_sites {
                 *all_sites.entry(k.clone()).or_insert(0) += v;
             }
